@@ -243,8 +243,26 @@ Definition round_to_grid (m e : Z) : Z :=
   else if half <? rem then q + 1
   else if Z.even q then q else q + 1.
 
-(* ldexp on binary64; the argument is a double, i.e. |m| < 2^53 after normalisation *)
+(* ldexp on binary64; the argument is a double, i.e. |m| < 2^53 after normalisation.  The first two tests only keep
+   the computation small for absurd exponents (the implementation can hand over garbage exponents): for
+   e' >= 1024 the value m * 2^e' (m <> 0) overflows, and for e' < -1074 - log2|m| - 2 it is below a quarter of the
+   smallest subnormal and rounds to zero; they agree with the general case (ldexp_shortcuts_agree in Scaling_Proofs.v). *)
 Definition ldexp_ieee (x : dbl) (k : Z) : dbl :=
+  match x with
+  | DFin m e =>
+    if m =? 0 then x
+    else
+      let e' := e + k in
+      if EOVER <=? e' then (if 0 <? m then DPInf else DNInf)
+      else if e' <? EMIN - Z.log2_up (Z.abs m) - 2 then DFin 0 EMIN
+      else if e' <? EMIN then DFin (round_to_grid m e') EMIN
+      else if 2 ^ (EOVER - EMIN) <=? Z.abs m * 2 ^ (e' - EMIN) then (if 0 <? m then DPInf else DNInf)
+      else DFin m e'
+  | _ => x
+  end.
+
+(* the same without the two shortcuts *)
+Definition ldexp_ieee_plain (x : dbl) (k : Z) : dbl :=
   match x with
   | DFin m e =>
     if m =? 0 then x
